@@ -108,16 +108,22 @@ func b3MainConfig(datasetPrefix string, traceNames, parentNames []string) string
 	return sb.String()
 }
 
+// b3WriteConfig (re)writes the two files a config loaded by b3LoadConfig(dir, …) reads; a
+// following Reload() of that config picks them up.
+func b3WriteConfig(dir, mainYAML, rulesYAML string) error {
+	if err := os.WriteFile(filepath.Join(dir, "config.yaml"), []byte(mainYAML), 0o644); err != nil {
+		return err
+	}
+	return os.WriteFile(filepath.Join(dir, "rules.yaml"), []byte(rulesYAML), 0o644)
+}
+
 // b3LoadConfig writes the two files into dir and loads them with the real loader. A
 // non-nil config with a non-nil error means "warnings only" (startup proceeds).
 func b3LoadConfig(dir, mainYAML, rulesYAML string) (config.Config, error) {
+	if err := b3WriteConfig(dir, mainYAML, rulesYAML); err != nil {
+		return nil, err
+	}
 	cp, rp := filepath.Join(dir, "config.yaml"), filepath.Join(dir, "rules.yaml")
-	if err := os.WriteFile(cp, []byte(mainYAML), 0o644); err != nil {
-		return nil, err
-	}
-	if err := os.WriteFile(rp, []byte(rulesYAML), 0o644); err != nil {
-		return nil, err
-	}
 	cfg, err := config.NewConfig(&config.CmdEnv{ConfigLocations: []string{cp}, RulesLocations: []string{rp}})
 	if cfg == nil {
 		return nil, err
@@ -151,8 +157,8 @@ func (c *b3Capture) AddSpanFromPeer(sp *types.Span) error {
 	c.mu.Unlock()
 	return nil
 }
-func (c *b3Capture) Stressed() bool                                          { return false }
-func (c *b3Capture) GetStressedSampleRate(string) (uint, bool, string)        { return 1, true, "verif" }
+func (c *b3Capture) Stressed() bool                                            { return false }
+func (c *b3Capture) GetStressedSampleRate(string) (uint, bool, string)         { return 1, true, "verif" }
 func (c *b3Capture) ProcessSpanImmediately(*types.Span) (processed, kept bool) { return false, false }
 
 // Take returns and clears the captured spans (arrival order).
